@@ -66,6 +66,8 @@ func ghost_calls_RefreshAfterReloadFailure() int      { panic("ghost") }
 func ghost_ret_RefreshAfterReloadFailure() time.Duration { panic("ghost") }
 func ghost_calls_weigher() int                        { panic("ghost") }
 func ghost_ret_weigher() uint32                       { panic("ghost") }
+func ghost_calls_rand() int                           { panic("ghost") }
+func ghost_ret_rand() uint32                          { panic("ghost") }
 func ghost_calls_f() int                              { panic("ghost") }
 func ghost_ret_f() time.Duration                      { panic("ghost") }
 
@@ -138,6 +140,44 @@ func pick(c bool, a, b time.Duration) time.Duration {
 		return a
 	}
 	return b
+}
+
+// ---- frequency sketch (C18)
+
+func nib(w, j uint64) uint64                 { return (w >> (j << 2)) & 0xf }
+func ctrSlot(block, ch, i uint64) uint64     { return block + ((ch >> (i << 3)) & 1) + (i << 1) }
+func ctrIdx(ch, i uint64) uint64             { return ((ch >> (i << 3)) >> 1) & 15 }
+func isPow2(x uint64) bool                   { return x != 0 && x&(x-1) == 0 }
+func minU64(a, b uint64) uint64 {
+	if a < b {
+		return a
+	}
+	return b
+}
+
+// wfSketch: the table length is a power of two >= 8 and blockMask selects a whole 8-word block.
+func wfSketch[K comparable](s *sketch[K]) bool {
+	n := uint64(len(s.table))
+	return isPow2(n) && n >= 8 && s.blockMask == (n>>3)-1
+}
+
+// est is the popularity estimate of block hash bh: the minimum of its four 4-bit counters.
+func est[K comparable](s *sketch[K], bh uint64) uint64 {
+	ch := rehash(bh)
+	block := (bh & s.blockMask) << 3
+	f := uint64(15)
+	for i := uint64(0); i < 4; i++ {
+		f = minU64(f, nib(s.table[ctrSlot(block, ch, i)], ctrIdx(ch, i)))
+	}
+	return f
+}
+
+// estOf is what frequency must return for key k.
+func estOf[K comparable](s *sketch[K], k K) uint64 {
+	if s.isNotInitialized() {
+		return 0
+	}
+	return est(s, s.hash(k))
 }
 
 //@ fieldinv ghost_expiresAt: v >= 0
@@ -307,3 +347,59 @@ func pick(c bool, a, b time.Duration) time.Duration {
 //@   ensures [C12:refresh-override-exact] c.withRefresh && refreshableAfter > 0 && pre(ghost_tbl(c.hashmap, key)) != nil && pre(alive(ghost_tbl(c.hashmap, key))) && pre(live(ghost_tbl(c.hashmap, key), 0)) && (!c.withExpiration || pre(ghost_expiresAt(ghost_tbl(c.hashmap, key))) > ghost_now()) ==> ghost_refreshableAt(pre(ghost_tbl(c.hashmap, key))) == satadd(ghost_now(), int64(refreshableAfter))
 //@   ensures [C03:no-touch-expired] pre(ghost_tbl(c.hashmap, key)) != nil && c.withRefresh && c.withExpiration && pre(ghost_expiresAt(ghost_tbl(c.hashmap, key))) <= ghost_now() ==> ghost_refreshableAt(pre(ghost_tbl(c.hashmap, key))) == pre(ghost_refreshableAt(ghost_tbl(c.hashmap, key)))
 //@   ensures [C20:quiet] ghost_hits() == pre(ghost_hits()) && ghost_misses() == pre(ghost_misses())
+
+// ---------------------------------------------------------------------------------------------
+// C18 — frequency sketch and admission
+// ---------------------------------------------------------------------------------------------
+
+//@ func (*sketch).frequency : C18
+//@   requires s.isNotInitialized() || wfSketch(s)
+//@   loop 1: unroll 4
+//@   ensures [C18:zero-before-init] s.isNotInitialized() ==> result == 0
+//@   ensures [C18:same-counters] result == estOf(s, k)
+//@   ensures [C18:le-15] result <= 15
+
+//@ func (*sketch).incrementAt : C18
+//@   inline verified on its own and inlined at its four call sites (its postcondition quantifies over all other counters)
+//@   var qstar uint64
+//@   requires i < uint64(len(s.table)) && j < 16
+//@   modifies s.table[i]
+//@   ensures [C18:saturating] nib(s.table[i], j) == minU64(pre(nib(s.table[i], j))+1, 15)
+//@   ensures [C18:other-counters-untouched] qstar < 16 && qstar != j ==> nib(s.table[i], qstar) == pre(nib(s.table[i], qstar))
+//@   ensures [C18:added-iff-not-saturated] result == (pre(nib(s.table[i], j)) != 15)
+//@   ensures [len-kept] len(s.table) == pre(len(s.table))
+
+//@ func (*sketch).reset : C18
+//@   var jstar uint64
+//@   var qstar uint64
+//@   modifies s.table[*], s.size
+//@   loop 1: invariant i >= 0 && i <= len(s.table) && len(s.table) == pre(len(s.table))
+//@   loop 1: invariant jstar < uint64(i) ==> s.table[jstar] == (pre(s.table[jstar])>>1)&resetMask
+//@   loop 1: invariant jstar >= uint64(i) && jstar < uint64(len(s.table)) ==> s.table[jstar] == pre(s.table[jstar])
+//@   ensures [C18:reset-halves] jstar < uint64(len(s.table)) && qstar < 16 ==> nib(s.table[jstar], qstar) == pre(nib(s.table[jstar], qstar))>>1
+//@   ensures [len-kept] len(s.table) == pre(len(s.table)) && s.blockMask == pre(s.blockMask)
+
+//@ func (*sketch).increment : C18
+//@   var hstar uint64
+//@   requires s.isNotInitialized() || wfSketch(s)
+//@   modifies s.table[*], s.size
+//@   ensures [C18:noop-before-init] s.isNotInitialized() ==> est(s, hstar) == pre(est(s, hstar))
+//@   ensures [C18:no-undercount-self] !s.isNotInitialized() && pre(s.size)+1 != s.sampleSize ==> est(s, s.hash(k)) >= minU64(pre(est(s, s.hash(k)))+1, 15)
+//@   ensures [C18:no-undercount-others] !s.isNotInitialized() && pre(s.size)+1 != s.sampleSize ==> est(s, hstar) >= pre(est(s, hstar))
+//@   ensures [C18:wf-kept] wfSketch(s) == pre(wfSketch(s))
+
+//@ func (*sketch).ensureCapacity : C18
+//@   var hstar uint64
+//@   requires maximumSize <= 1<<62
+//@   requires s.isNotInitialized() || wfSketch(s)
+//@   modifies s.table, s.sampleSize, s.blockMask, s.size, sketch::hasher.seed.s, s.isInitialized
+//@   ensures [C18:capacity-wf] pre(uint64(len(s.table))) < maximumSize ==> wfSketch(s) && !s.isNotInitialized() && uint64(len(s.table)) >= maximumSize
+//@   ensures [C18:new-period-zero] pre(uint64(len(s.table))) < maximumSize ==> est(s, hstar) == 0
+//@   ensures [C18:no-op-when-large-enough] pre(uint64(len(s.table))) >= maximumSize ==> same(s.table, pre(s.table)) && s.blockMask == pre(s.blockMask) && s.isNotInitialized() == pre(s.isNotInitialized())
+
+//@ func (*policy).admit : C18 C04 C07
+//@   requires p.sketch != nil && (p.sketch.isNotInitialized() || wfSketch(p.sketch))
+//@   modifies ghost_calls_rand(), ghost_ret_rand()
+//@   ensures [C18:admit-greater] estOf(p.sketch, candidateKey) > estOf(p.sketch, victimKey) ==> result
+//@   ensures [C18:admit-strict] result ==> estOf(p.sketch, candidateKey) > estOf(p.sketch, victimKey) || (estOf(p.sketch, candidateKey) >= 6 && ghost_ret_rand()&127 == 0)
+//@   ensures [C18:admit-random-only-warm] result && estOf(p.sketch, candidateKey) <= estOf(p.sketch, victimKey) ==> estOf(p.sketch, candidateKey) >= 6
